@@ -1493,10 +1493,23 @@ pub fn generate(seed: u64, tier: Tier) -> Case {
                     false
                 } else {
                     let i = rng.below(files.len());
-                    let deep = format!("{}a", "a<".repeat(*rng.pick(&[20usize, 60, 100])));
-                    let seg = if rng.chance(1, 8) { deep.as_str() } else { *rng.pick(&HOSTILE_SEGMENTS) };
+                    // Names that nest when they are read as part of a type path: angle brackets,
+                    // function types (whose `->` is not a closing bracket), parentheses, arrays.
+                    let unit = *rng.pick(&["a<", "a<fn()->", "a<(", "a<[", "a<*const "]);
+                    let levels = (*rng.pick(&[20usize, 60, 100])).min(250 / unit.len());
+                    let deep = format!("{}a", unit.repeat(levels));
+                    let seg = if rng.chance(1, 6) { deep.as_str() } else { *rng.pick(&HOSTILE_SEGMENTS) };
                     let old = files[i].0.trim_end_matches(".pyxis").to_string();
                     let mut segs: Vec<String> = old.split('/').map(|s| s.to_string()).collect();
+                    // Sometimes every segment nests, in a path of three or four segments.
+                    if seg == deep && rng.chance(1, 2) {
+                        while segs.len() < 3 {
+                            segs.insert(0, String::new());
+                        }
+                        for s in segs.iter_mut() {
+                            *s = deep.clone();
+                        }
+                    }
                     let dir_ok = !seg.chars().all(|c| c == '.');
                     match rng.below(3) {
                         // the file itself
